@@ -30,7 +30,44 @@ def load_kf():
     return json.load(open(KF_PATH)).get("findings", [])
 
 
-def relevant(fl, pid, unit_serves):
+def fn_tags(gen):
+    """function name -> set of property tags of every marked clause inside that function (contract, invariants, hints);
+    trait-level clauses `prelude.solve.*` / `prelude.setup.*` belong to the function of that name."""
+    m = {}
+    for o in gen.origins:
+        if not o.get("marked") or not o.get("tags"):
+            continue
+        fn = gen.fn_of(o)
+        if fn is None and o.get("kind") == "prelude":
+            parts = o.get("clause", "").split(".")
+            if len(parts) >= 3:
+                fn = parts[1]
+        if fn:
+            m.setdefault(fn, set()).update(o["tags"])
+    return m
+
+
+def match_kf_any(fl, unit, kfs):
+    ids = [c[0] for c in fl.clauses]
+    for kf in kfs:
+        if kf.get("unit") == unit and kf.get("clause") and kf["clause"] in ids and (not kf.get("fn") or kf["fn"] == fl.fn):
+            return kf
+    return None
+
+
+def relevant(fl, pid, unit_serves, ftags=None, unit=None, kfs=()):
+    # a listed known finding counts only for the property it is listed under
+    kf = match_kf_any(fl, unit, kfs) if unit else None
+    if kf is not None:
+        return kf.get("property") == pid
+    # a failed clause is assumed by everything after it in the same function, so it counts against every property
+    # that has a clause in that function
+    if ftags and fl.fn and fl.clauses and pid in ftags.get(fl.fn, ()):
+        return True
+    return _relevant(fl, pid, unit_serves)
+
+
+def _relevant(fl, pid, unit_serves):
     """A failed obligation counts against property pid if a clause it hit names pid on its own line (`//@ id [..]`);
     a failure that hit only clauses without an own marker (they inherit the annotation's coarse default tags) is a
     broken proof step and counts against every property the unit serves; a bare safety obligation at a real source
@@ -97,7 +134,8 @@ def run_v_units(units, tier, seed, pid=None, kfs=()):
         if r.status != "failures":
             return False
         serves = getattr(verus_run.load_unit(u), "SERVES", [])
-        return any(relevant(fl, pid, serves) and not match_kf(fl, u, pid, kfs) for fl in r.failures)
+        ft = fn_tags(r.gen) if r.gen is not None else None
+        return any(relevant(fl, pid, serves, ft, u, kfs) and not match_kf(fl, u, pid, kfs) for fl in r.failures)
     todo = [u for u, r in out.items() if needs_confirm(u, r)]
     extra_seeds = [seed + 1] if tier == "quick" else [seed + 1, seed + 2]
     if tier == "thorough":
@@ -137,7 +175,7 @@ def main():
     v_units = P.get("v_units", [])
     results, confirm = run_v_units(v_units, tier, seed, pid, kfs)
     k_result = None
-    if P.get("k_harnesses"):
+    if P.get("k_harnesses") and not os.environ.get("VERIF_SKIP_K"):   # VERIF_SKIP_K: developer switch for quick experiments only
         import kani_run
         k_result = kani_run.run_property(pid, P, tier, seed)
 
@@ -178,7 +216,8 @@ def main():
         us["dropped"] = g.dropped
         us["generated_sha256"] = g.sha
         # failures relevant to this property; a failure must be confirmed by every re-run
-        rel = [fl for fl in r.failures if relevant(fl, pid, serves)]
+        ftags = fn_tags(g)
+        rel = [fl for fl in r.failures if relevant(fl, pid, serves, ftags, u, kfs)]
         confirmed = []
         for fl in rel:
             ok = True
@@ -200,7 +239,7 @@ def main():
                     undecided.append("%s: seed re-run undecided: %s" % (unit.NAME, r2.reason))
                     continue
                 for f2 in r2.failures:
-                    if relevant(f2, pid, serves) and f2.key() not in [f.key() for f in r.failures]:
+                    if relevant(f2, pid, serves, ftags, u, kfs) and f2.key() not in [f.key() for f in r.failures]:
                         undecided.append("%s: unstable obligation (fails for some solver seeds only): %s" % (unit.NAME, describe(f2)))
         failed_clause_ids = set()
         kf_clause_ids = set()
@@ -296,6 +335,7 @@ def main():
             rewrite_rule_hits={k: v for k, v in rule_hits.items() if v},
             bounded_checks=(k_result["bounded"] if k_result else []),
             kani=(k_result["harness_table"] if k_result else []),
+            kani_optional_undecided=(k_result.get("optional_undecided", []) if k_result else []),
             known_findings_matched=[k[0]["id"] for k in known],
             undecided=undecided,
             not_covered=P.get("not_covered", []),
